@@ -25,6 +25,7 @@
 //           or "R <id> <t> <k> <c> EXC <what>"  or  "R <id> <t> <k> <c> STOP <iterations logged>"
 //           and "L <id> <t> <k> <c> <iteration> <error %a>" per logged t-SNE progress line,
 //         then "E <id>".
+#include <cctype>
 #include <cmath>
 #include <cstdio>
 #include <cstdlib>
@@ -94,6 +95,36 @@ static const DimensionReductionMethod* method_by_name(const std::string& s)
     return it == tbl.end() ? nullptr : it->second;
 }
 
+// a progress line of an iterative method = an info message with at least two numbers: the first is the iteration,
+// the last the error ("Iteration 50: error is 67.1" today; robust to a rewording of the message)
+static bool parse_progress(const std::string& msg, long& iteration, double& value)
+{
+    std::vector<double> nums;
+    const char* s = msg.c_str();
+    size_t n = msg.size();
+    for (size_t i = 0; i < n;)
+    {
+        bool start = (isdigit((unsigned char)s[i]) || ((s[i] == '-' || s[i] == '.') && i + 1 < n && isdigit((unsigned char)s[i + 1]))) &&
+                     (i == 0 || !(isalnum((unsigned char)s[i - 1]) || s[i - 1] == '_' || s[i - 1] == '.'));
+        if (start)
+        {
+            char* e = nullptr;
+            double v = strtod(s + i, &e);
+            if (e && e > s + i)
+            {
+                nums.push_back(v);
+                i = (size_t)(e - s);
+                continue;
+            }
+        }
+        i++;
+    }
+    if (nums.size() < 2) return false;
+    iteration = (long)nums.front();
+    value = nums.back();
+    return true;
+}
+
 // thrown by the logger to end TSNE::run early (not derived from std::exception on purpose: nothing in the
 // library catches it)
 struct stop_request
@@ -107,13 +138,10 @@ struct CaptureLogger : public LoggerImplementation
     long stop_at = -1;
     virtual void message_info(const std::string& msg)
     {
-        if (msg.rfind("Iteration ", 0) != 0) return;
         long it = 0;
         double c = 0;
-        char buf[64];
-        if (sscanf(msg.c_str(), "Iteration %ld: error is %63s", &it, buf) == 2)
+        if (parse_progress(msg, it, c))
         {
-            c = strtod(buf, nullptr);
             lines.push_back({it, c});
             if (stop_at >= 0 && it >= stop_at) throw stop_request{(int)it};
         }
